@@ -8,13 +8,17 @@
    also says they never panic; for shape helpers under the validator's precondition; for element generators: one
    call of the closure moves the multi-index state exactly like the model's odometer ([incr], [incr_skip], [bstep]),
    and the statements outside the integer fragment are pinned as text in source order ([itemShape]).
-   An edit of one of these Go functions changes GoFns.v and breaks the theorem unless it computes the same thing.
+   The DATA layer (functions over `any`: float64 leaves and []any rows, recursive closures with pointer
+   parameters) is translated into DataIR programs (Model/DataIR.v, Model/GoData.v, regenerated every run); the
+   [data_*] / [drun_*] theorems say that running them returns exactly the model's nested data (Model/Data.v,
+   Model/Fill.v) and panics exactly where the model says None.
+   An edit of one of these Go functions changes GoFns.v / GoData.v and breaks the theorem unless it computes the same thing.
    Closed under the global context. *)
 From Coq Require Import String List ZArith Bool Arith.
-From Qeep Require Import Model.Nd Model.Fill Model.Valid Model.GoIR.
-From Qeep Require Model.Data Model.GoFns.
+From Qeep Require Import Model.Scalar Model.Nd Model.Fill Model.Valid Model.GoIR Model.DataIR.
+From Qeep Require Model.Data Model.Api Model.GoFns Model.GoData.
 From Qeep Require Import Proofs.GoIRP.
-From Qeep Require Proofs.GoValidAtP Proofs.GoValidP1 Proofs.GoValidP2 Proofs.GoValidP3 Proofs.GoDimsP1 Proofs.GoDimsP2 Proofs.GoGenP1 Proofs.GoGenP2 Proofs.GoGenP3.
+From Qeep Require Proofs.GoValidAtP Proofs.GoValidP1 Proofs.GoValidP2 Proofs.GoValidP3 Proofs.GoDimsP1 Proofs.GoDimsP2 Proofs.GoGenP1 Proofs.GoGenP2 Proofs.GoGenP3 Proofs.GoMatMulShapeP Proofs.DataAtP Proofs.DataSliceP Proofs.DataPatchP Proofs.DataApplyP Proofs.DataReduceP Proofs.DataFillP Proofs.DataLinalgP Proofs.DataConcatP.
 Import ListNotations.
 Local Open Scope string_scope.
 
@@ -87,3 +91,59 @@ Theorem reducedDimGenerator_step_is_incr_skip :
     lookup e' "t.dims" = Some (nats ds) /\ lookup e' "dim" = Some (VI (Z.of_nat dim)).
 Proof. exact @GoGenP2.go_linearElemGeneratorWithReducedDim_step. Qed.
 Print Assumptions reducedDimGenerator_step_is_incr_skip.
+
+Theorem reduceByAssociativeFunc_program_is_reduceBy :
+  forall (A : Type) (SA : Scalar A) (fapp : string -> list A -> option A) (St : Type)
+    (ext : string -> list dval -> St -> option (list dval * St)) (af : A -> A -> A),
+  (forall v a : A, fapp "af" [v; a] = Some (af v a)) ->
+  forall (fuel depth : nat) (ds : list nat) (x : nd A) (idv : A) (s : St),
+  Datatypes.length ds < depth ->
+  match Data.reduceBy af idv {| dims := ds; data := x |} with
+  | Some v =>
+      exists g l : denv,
+        drun fapp St ext GoData.d_reduceByAssociativeFunc fuel depth [dnats ds; emb x; DF idv] s =
+        DRet St [DF v] s g l
+  | None =>
+      drun fapp St ext GoData.d_reduceByAssociativeFunc fuel depth [dnats ds; emb x; DF idv] s =
+      DPanic St
+  end.
+Proof. exact @DataReduceP.drun_reduceBy. Qed.
+Print Assumptions reduceByAssociativeFunc_program_is_reduceBy.
+
+Theorem trav_closure :
+  forall (A : Type) (SA : Scalar A) (fapp : string -> list A -> option A) (St : Type)
+    (ext : string -> list dval -> St -> option (list dval * St)) (af : A -> A -> A),
+  (forall v a : A, fapp "af" [v; a] = Some (af v a)) ->
+  forall (fuel : nat) (ds : list nat) (x : nd A) (v0 : A) (d : nat) (s : St) (g : denv),
+  Datatypes.length ds <= d ->
+  dlookup g "value" = Some (DF v0) ->
+  match Data.trav af ds x v0 with
+  | Some v =>
+      exists g' : denv,
+        callLD fapp St ext (plocals GoData.d_reduceByAssociativeFunc) fuel (S d) "trav"
+          [dnats ds; emb x] s g = CRet St [] s g' /\
+        dlookup g' "value" = Some (DF v) /\
+        (forall y : string, y <> "value" -> dlookup g' y = dlookup g y)
+  | None =>
+      callLD fapp St ext (plocals GoData.d_reduceByAssociativeFunc) fuel (S d) "trav" [
+        dnats ds; emb x] s g = CPanic St
+  end.
+Proof. exact @DataReduceP.data_trav. Qed.
+Print Assumptions trav_closure.
+
+Theorem copiedSliceOf_program_is_copiedSliceOf :
+  forall (A : Type) (SA : Scalar A) (fapp : string -> list A -> option A) (St : Type)
+    (ext : string -> list dval -> St -> option (list dval * St)) (fuel depth : nat) 
+    (ds : list nat) (x : nd A) (index : list (nat * nat)) (s : St),
+  Forall (fun r : nat * nat => fst r <= snd r) index ->
+  Datatypes.length index < depth ->
+  match Data.copiedSliceOf {| dims := ds; data := x |} index with
+  | Some o =>
+      exists g l : denv,
+        drun fapp St ext GoData.d_copiedSliceOf fuel depth [dnats ds; emb x; dranges index] s =
+        DRet St [dnats (dims o); emb (data o)] s g l
+  | None =>
+      drun fapp St ext GoData.d_copiedSliceOf fuel depth [dnats ds; emb x; dranges index] s = DPanic St
+  end.
+Proof. exact @DataSliceP.data_copiedSliceOf. Qed.
+Print Assumptions copiedSliceOf_program_is_copiedSliceOf.
